@@ -25,8 +25,8 @@ def run(ctx):
                 ("C15_noexist", "simulate", 600, 1), ("C15_shift_bfs", "bfs", None, 1),
                 ("C15_bfs", "bfs", None, 1)]
     else:
-        jobs = [("C15_sim", "simulate", 900, 4), ("C15_window", "simulate", 450, 2),
-                ("C15_noexist", "simulate", 100, 1), ("C15_shift_bfs", "simulate", 1500, 1)]
+        jobs = [("C15_sim", "simulate", 600, 4), ("C15_window", "simulate", 300, 2),
+                ("C15_noexist", "simulate", 80, 1), ("C15_shift_bfs", "simulate", 1000, 1)]
     res = qcommon.generate_parallel(ctx, jobs)
     for cfg, _, _, _ in jobs:
         beh = qcommon.merge(ctx, res[cfg], cfg)
